@@ -93,7 +93,10 @@ func captureRun(seed int64, run, steps int) ([]*Stream, map[string]int, []capPro
 			return m, true
 		}
 		ls.kept = append(ls.kept, dm)
-		return dm, true
+		// raft mutates stepped messages in place (appendEntry assigns Term/Index of
+		// forwarded proposals), so the receiver gets its own copy and the decoder's
+		// output stays untouched for the comparison at the end of the stream
+		return cloneMsg(dm), true
 	}
 	cl := newCapCluster(rand.New(rand.NewSource(r.Int63())), 2+run%2, route)
 	cl.run(steps)
